@@ -11,8 +11,14 @@ admitted by J, _nres in 0..3, with the CONTENTS of epstab havoc'd and the elemen
 invariant k_1 == n-2i, n unchanged, result/abserr arbitrary), one call on every data path:
   D1  raises nothing (index errors would surface natively: indices are concrete, data symbolic)
   D2  result and abserr are defined (every selected division has a non-zero denominator on that path)
-  D3  abserr >= 5*EPS*|result| from the third term on
+  D3  abserr >= 5*EPS*|result| from the third term on: in every state with n >= 2 or _nres >= 1 (the latter covers the calls
+      that follow a guard-triggered truncation of the table to fewer than three elements -- finding F11)
   D4  re-establishes J   => by induction over calls: sequences of ANY length are accepted
+  D6  element rule (loop body cut from the AST, arbitrary iteration i, havoc'd table, continuing = no-guard paths): the new
+      element is Wynn's cross rule e_1 + 1/(1/(e_1-e_3) + 1/(e_2-e_1) - 1/(e_1-e_0)) of its four neighbours, nothing else is
+      written, and (result, abserr) is replaced by (new, |e_2-e_1|+|new-e_2|+|e_1-e_0|) exactly when that error is not larger.
+      With the shift contract S (_shift_table == qelg's table shift, every admissible (limexp, old_n, n)) this gives by
+      induction (by hand): outside the guards the table holds the even columns of Wynn's epsilon table, HUGE boundary
   D5  the first three terms: Dea == e_1 + 1/(1/d2 - 1/d1 + 1/(e_1 - HUGE)) outside the guards (dea3's formula with the
       1/HUGE regulariser in place of TINY); first and second call return the term itself
 """
@@ -232,13 +238,16 @@ def run_dea(limexp, n):
                             for k in range(len(epstab)):
                                 epstab[k] = fresh('t')
                             loc.update(k_1=n_ - 2 * i, abserr=fresh('abserr'), result=fresh('result'), all_converged=False)
+                            before = list(epstab)
+                            res_before, err_before = loc['result'], loc['abserr']
                             args = {k: loc.get(k) for k in names}
                             args['i'] = i
                             tag_, loc2 = it_f(**args)
                             if tag_ == 'next':
                                 ok = loc2['k_1'] == n_ - 2 * (i + 1) and loc2['n'] == loc['old_n'] and loc2['all_converged'] is False \
                                     and loc2['epstab'] is epstab
-                                raise InvOK(ok)
+                                raise InvOK(ok, dict(k_1=n_ - 2 * i, before=before, after=list(epstab), result=(res_before, loc2['result']),
+                                                     abserr=(err_before, loc2['abserr']), hyps=hyps()))
                             return post_f(**{k: loc2.get(k) for k in names})
                         for k in range(len(epstab)):
                             epstab[k] = fresh('t')
@@ -250,7 +259,7 @@ def run_dea(limexp, n):
                     try:
                         r = ex.Dea.__call__(d, s_value)
                     except InvOK as e:
-                        return ('loop-invariant', e.args[0], None, None)
+                        return ('loop-invariant', e.args[0], e.args[1] if len(e.args) > 1 else None, None)
                     return ('returned', (d._n, d._nres, len(d.epstab), d.limexp), r, hyps())
                 paths = explore(one_call, catch=(IndexError, ValueError, TypeError, KeyError, AttributeError, ZeroDivisionError), max_paths=4096)
                 info['paths'] += len(paths)
@@ -265,6 +274,25 @@ def run_dea(limexp, n):
                     kind, st, r, _ = p.value
                     if kind == 'loop-invariant':
                         okInv = okInv and bool(st)
+                        if r is not None:
+                            # D6 element rule on a continuing (no guard fired) path: the new table element is Wynn's cross rule
+                            #   1/(new - C) + 1/(W - C) == 1/(N - C) + 1/(S - C)   with  C = epstab[k_1-1] (e_1),
+                            #   W = old epstab[k_1] (e_3), N = epstab[k_1-2] (e_0), S = epstab[k_1+2] (e_2)
+                            # written for `new`; every other table element keeps its value except epstab[k_1] (frame)
+                            k1 = r['k_1']; bf, af = r['before'], r['after']
+                            e0, e1, e2, e3 = [lift(bf[j]).t for j in (k1 - 2, k1 - 1, k1 + 2, k1)]
+                            sss = 1 / (e1 - e3) + 1 / (e2 - e1) - 1 / (e1 - e0)
+                            H = r['hyps']
+                            solve.prove(tag + 'path%d:D6:new-element==cross-rule(e_1+1/(1/(e_1-e_3)+1/(e_2-e_1)-1/(e_1-e_0)))' % pi,
+                                        lift(af[k1]).t == e1 + 1 / sss, H)
+                            solve.fact(tag + 'path%d:D6:frame:only-epstab[k_1]-is-written' % pi,
+                                       all(lift(a_).t.eq(lift(b_).t) for j, (a_, b_) in enumerate(zip(af, bf)) if j != k1))
+                            # result / abserr: either kept, or replaced by the new element with error |e2-e1| + |new-e2| + |e1-e0|
+                            rb, ra = lift(r['result'][0]).t, lift(r['result'][1]).t
+                            eb, ea = lift(r['abserr'][0]).t, lift(r['abserr'][1]).t
+                            errn = ab(e2 - e1) + ab(lift(af[k1]).t - e2) + ab(e1 - e0)
+                            solve.prove(tag + 'path%d:D6:result-is-the-element-with-the-smaller-error-estimate' % pi,
+                                        z3.Or(z3.And(ra == rb, ea == eb, errn > eb), z3.And(ra == lift(af[k1]).t, ea == errn, errn <= eb)), H)
                         continue
                     n2, nres2, ln, lx = st
                     J = (0 <= n2 <= lx - 1) and nres2 >= 0 and ln == lx + 5 and lx == Lodd
@@ -276,7 +304,9 @@ def run_dea(limexp, n):
                     tt = z3.BoolVal(True)
                     solve.prove(tag + 'path%d:D2:result-and-abserr-defined' % pi,
                                 z3.And(res.dfn if res.dfn is not None else tt, abserr.dfn if abserr.dfn is not None else tt), p.hyps)
-                    if n >= 2:
+                    if n >= 2 or nres >= 1:
+                        # at least three terms have been fed: n >= 2 elements in the table, or an earlier call already ran the
+                        # extrapolation (_nres >= 1) and a guard has since cut the table back to fewer than three elements
                         solve.prove_lin(tag + 'path%d:D3:abserr>=5*EPS*|result|' % pi, abserr.t >= 5 * EPS * ab(res.t), p.hyps)
                     solve.prove_lin(tag + 'path%d:abserr>=0' % pi, abserr.t >= 0, p.hyps)
                 solve.fact(tag + 'D4:J-re-established-on-every-returning-path', okJ, note=str(badJ))
